@@ -1132,7 +1132,7 @@ fn part_trees(o: &mut Outcome, rng: &mut Rng, thorough: bool) {
     }
     o.count_n("trees:runs of 3 over", three.len() as u64);
     // random runs of 1..7 (style 2024 as well: the order of merged lists), group_imports on each
-    for k in 0..(if thorough { 30000 } else { 2500 }) {
+    for k in 0..(if thorough { 100000 } else { 8000 }) {
         let n = rng.range(1, 7);
         let run: Vec<Tree> = (0..n).map(|_| if rng.chance(1, 3) { rng.pick(&medium).clone() } else { rand_tree(rng, 0) }).collect();
         corr_granularity(o, &run, k % 2 == 1, "random run");
@@ -1384,7 +1384,7 @@ fn part_source(o: &mut Outcome, rng: &mut Rng, thorough: bool) {
     }
     o.count_n("source:runs of 3 over", m as u64);
     // the arm under every granularity x grouping x reordering on fixed runs of the universe
-    for k in 0..(if thorough { 400 } else { 40 }) {
+    for k in 0..(if thorough { 1500 } else { 120 }) {
         let n = rng.range(2, 6);
         let run: Vec<Decl> = (0..n).map(|_| rng.pick(&u).clone()).collect();
         for g in 0..5 {
@@ -1398,7 +1398,7 @@ fn part_source(o: &mut Outcome, rng: &mut Rng, thorough: bool) {
     }
     // random runs: nesting to depth 4, comments, odd shapes
     let gopts = GenOpts { max_depth: 4, comments: true, odd: true, global: true };
-    for k in 0..(if thorough { 12000 } else { 900 }) {
+    for k in 0..(if thorough { 40000 } else { 3000 }) {
         let n = rng.range(1, if k % 7 == 0 { 9 } else { 5 });
         let mut run = gen_run(rng, n, &gopts);
         for (i, d) in run.iter_mut().enumerate() {
@@ -1539,7 +1539,7 @@ fn tags(u: &PUse) -> Vec<String> {
 }
 
 fn part_e2e(o: &mut Outcome, rng: &mut Rng, thorough: bool) {
-    let nprog = if thorough { 2400 } else { 130 };
+    let nprog = if thorough { 6000 } else { 700 };
     let gopts = GenOpts { max_depth: 4, comments: true, odd: true, global: true };
     let mut progs: Vec<(EProg, String, Analysed)> = vec![];
     for k in 0..nprog {
@@ -1733,7 +1733,7 @@ fn judge(o: &mut Outcome, progs: &[(String, &Analysed)], meta: &[(usize, HCfg)],
         let (src, a) = &progs[*pi];
         let e2015 = !c.e2018();
         let n = a.segs.len();
-        let desc = format!("[{}] {} => {}", c.text(), enc_str(src), enc_str(&res[k].out));
+        let desc = format!("[{}] {}", c.text(), enc_str(src));
         for s in 0..n {
             let (lin, lout) = (&ans[q + s], &ans[q + n + s]);
             if a.segs[s].is_empty() && out.segs[s].is_empty() {
@@ -1841,10 +1841,11 @@ const PROBES: &[Probe] = &[
     Probe { id: "F6-module-root", src: "use ::a;\nuse ::a as x;\n", cfg: &[("imports_granularity", "Module"), ("edition", "2018")], must_keep: None, what: "imports_granularity=Module, edition >= 2018: `use ::a; use ::a as x;` loses `::a as x` (`::a` is one segment)" },
     Probe { id: "F6-one-nested", src: "use b::{c, d};\nuse b::c as p;\n", cfg: &[("imports_granularity", "One")], must_keep: None, what: "imports_granularity=One: `use b::{c, d}; use b::c as p;` becomes `use b::{c, d};` (merge_use_trees_inner picks `c` as most similar to `c as p` and merge drops it; proved: alias_twin_nested_counterexample)" },
     Probe { id: "F6-one-single", src: "use a::{b, b as x, b as y};\n", cfg: &[("imports_granularity", "One")], must_keep: None, what: "imports_granularity=One: the single declaration `use a::{b, b as x, b as y};` loses `a::b as y` when it is flattened and merged again" },
+    Probe { id: "F6-one-fixture-5131", src: "use bar::a;\nuse bar::b;\nuse bar::b::f;\nuse bar::b::f as f2;\nuse bar::b::g;\n", cfg: &[("imports_granularity", "One")], must_keep: None, what: "imports_granularity=One: the repository's own tests/source/5131_one.rs loses `bar::b::f as f2`, and tests/target/5131_one.rs records the lossy output (`b::{self, f, g}`): a repair of the nested twin loss fails the unedited suite" },
     Probe { id: "F6-one-stem", src: "use a::b;\nuse a as x;\n", cfg: &[("imports_granularity", "One")], must_keep: None, what: "imports_granularity=One: `use a::b; use a as x;` becomes `use a as x::{self as x, b};`, which is not Rust (merge_rest takes the head segment from the aliased tree; proved: alias_stem_counterexample)" },
-    Probe { id: "C10-item-attrs", src: "#[cfg(unix)]\nuse f::B;\n#[cfg(windows)]\nuse f::B;\n", cfg: &[("imports_granularity", "Item")], must_keep: None, what: "imports_granularity=Item: `#[cfg(unix)] use f::B; #[cfg(windows)] use f::B;` loses the second declaration: unique() compares paths only (proved: granularity_item_counterexample)" },
-    Probe { id: "C10-item-vis", src: "pub use p::q;\nuse p::q;\n", cfg: &[("imports_granularity", "Item")], must_keep: None, what: "imports_granularity=Item: `pub use p::q; use p::q;` loses the private import (unique() compares paths only)" },
-    Probe { id: "C10-item-dup-comment", src: "use b::c;\nuse b::c; // why\nuse d;\n", cfg: &[("imports_granularity", "Item")], must_keep: Some("why"), what: "imports_granularity=Item: a duplicate import that carries a comment is removed together with its comment (unique() compares paths only)" },
+    Probe { id: "C10-item-attrs", src: "#[cfg(unix)]\nuse f::B;\n#[cfg(windows)]\nuse f::B;\n", cfg: &[("imports_granularity", "Item")], must_keep: None, what: "imports_granularity=Item: `#[cfg(unix)] use f::B; #[cfg(windows)] use f::B;` lost the second declaration: unique() compared paths only (repaired in /repo; theorem granularity_item_leaves)" },
+    Probe { id: "C10-item-vis", src: "pub use p::q;\nuse p::q;\n", cfg: &[("imports_granularity", "Item")], must_keep: None, what: "imports_granularity=Item: `pub use p::q; use p::q;` lost the private import: unique() compared paths only (repaired in /repo)" },
+    Probe { id: "C10-item-dup-comment", src: "use b::c;\nuse b::c; // why\nuse d;\n", cfg: &[("imports_granularity", "Item")], must_keep: Some("why"), what: "imports_granularity=Item: a duplicate import that carries a comment was removed together with its comment: unique() compared paths only (repaired in /repo)" },
     Probe { id: "C10-empty-nested-item", src: "use a::{b::{}, c};\n", cfg: &[("imports_granularity", "Item")], must_keep: None, what: "imports_granularity=Item: `use a::{b::{}, c};` becomes `use a; use a::c;`: an import of `a` nobody wrote (normalize leaves a nested tree with an empty path, flatten turns it into the prefix; proved: flatten_empty_nested_counterexample)" },
     Probe { id: "C10-empty-nested-crate", src: "use a::{b::{}, c};\nuse a::d;\n", cfg: &[("imports_granularity", "Crate")], must_keep: None, what: "imports_granularity=Crate: `use a::{b::{}, c}; use a::d;` becomes `use a::{self, c, d};`: an import of `a` nobody wrote" },
     Probe { id: "C10-bare-self", src: "use self;\nuse a;\n", cfg: &[], must_keep: None, what: "`use self;` (accepted by the parser, rejected by rustc) is deleted by normalize (proved: normalize_bare_self_counterexample)" },
